@@ -2174,3 +2174,256 @@ Lemma same_creator_nested_trees_refuted :
   accepted (run w_gm false false w_boot [r1; r2]) = true /\
   run w_gm false false w_boot [r2; r1] = Err (MTreeParent (w_d ++ [47])%list).
 Proof. vm_compute. repeat split; reflexivity. Qed.
+
+(* ------------------------------------------------------------------------------------------ *)
+(* 3c. One declaration of one path, uniformly: static file, amended output, amended volatile    *)
+(* ------------------------------------------------------------------------------------------ *)
+
+Section Commute6.
+
+Variable gm : str -> str -> bool.
+Variable gr : bool.
+
+Record decl1 := mkDecl1 {
+  d1_cr : creator;                    (* the requesting step *)
+  d1_dclf : state -> res creator;     (* the declaring node it settles on (depends on the trees) *)
+  d1_r : role;
+  d1_gl : option str;                 (* Some label: _raise_if_glob_match is consulted *)
+  d1_p : str
+}.
+
+Definition one_sem (D : decl1) (st : state) : res state :=
+  bind (require_step st (d1_cr D)) (fun _ =>
+  bind (d1_dclf D st) (fun dcl =>
+  bind (check_decl st (WNode dcl) (d1_p D) (d1_r D)) (fun is_new =>
+  if is_new
+  then bind (match d1_gl D with Some lbl => glob_check gm (globs st) lbl [d1_p D] | None => Ok tt end)
+            (fun _ => declare_file false dcl (d1_r D) st (d1_p D))
+  else Ok st))).
+
+Definition wf1 (D : decl1) : Prop :=
+  (forall st q cl, d1_dclf D (set_claim st q cl) = d1_dclf D st) /\
+  (forall st t, (forall t', d1_cr D <> CTree t') -> d1_dclf D st = Ok (CTree t) ->
+                d1_r D = RStatic /\ find_owner false st (d1_p D) = Ok (Some (t, d1_cr D))).
+
+Definition D_amend (s : str) (r : role) (p : str) : decl1 :=
+  mkDecl1 (CStep s) (fun _ => Ok (CStep s)) r (Some s) p.
+
+Definition D_static (c2 : creator) (p : str) : decl1 :=
+  mkDecl1 c2 (fun st => static_declarer false c2 st p) RStatic None p.
+
+Lemma D_amend_wf s r p : wf1 (D_amend s r p).
+Proof. split; cbn; [reflexivity|]. intros st t _ H. discriminate H. Qed.
+
+Lemma D_static_wf c2 p : wf1 (D_static c2 p).
+Proof.
+  split; cbn.
+  - intros st q cl. unfold static_declarer.
+    change (find_owner false (set_claim st q cl) p) with (find_owner false st p). reflexivity.
+  - intros st t Hc H. split; [reflexivity|].
+    destruct (static_declarer_cases _ _ _ _ H) as [[E _]|[t' [E [Hs _]]]].
+    + exfalso. eapply Hc. eauto.
+    + inversion E; subst. exact Hs.
+Qed.
+
+Lemma D_amend_spec s r p st :
+  product_role r = true -> step gm false gr st (amend1 s r p) = one_sem (D_amend s r p) st.
+Proof. intros Hr. rewrite amend1_spec by assumption. reflexivity. Qed.
+
+Lemma D_static_spec c2 p st : step gm false gr st (RqStatic c2 [p]) = one_sem (D_static c2 p) st.
+Proof.
+  rewrite (static1_spec gm gr). unfold static1_sem, one_sem. cbn [D_static d1_cr d1_dclf d1_p d1_r d1_gl].
+  destruct (require_step st c2); cbn [bind]; [|reflexivity].
+  destruct (static_declarer false c2 st p); cbn [bind]; [|reflexivity].
+  destruct (check_decl st (WNode a0) p RStatic) as [[|]|]; reflexivity.
+Qed.
+
+Lemma declare_file_ok_gen c0 r st p st2 :
+  declare_file false c0 r st p = Ok st2 ->
+  st2 = set_claim st p (mkClaim r c0) /\ lookup p (claims st) = None /\
+  ((forall t, c0 <> CTree t) -> find_owner false st p = Ok None).
+Proof.
+  intros H. unfold declare_file in H.
+  destruct (role_eqb r RVolatile && ends_with_c SLASH p); [discriminate|].
+  destruct c0 as [|l|t]; cbn [bind] in H.
+  - dres H. apply owner_guard_ok in E. inversion H. auto.
+  - dres H. apply owner_guard_ok in E. inversion H. auto.
+  - dres H. inversion H. repeat split; auto. intros Hc. exfalso. eapply Hc; eauto.
+Qed.
+
+Lemma declare_file_set_claim_other_gen c0 r st p cl q :
+  q <> p ->
+  declare_file false c0 r (set_claim st p cl) q =
+  match declare_file false c0 r st q with
+  | Ok _ => Ok (set_claim (set_claim st p cl) q (mkClaim r c0))
+  | Err m => Err m
+  end.
+Proof.
+  intros Hne. unfold declare_file.
+  destruct (role_eqb r RVolatile && ends_with_c SLASH q); [reflexivity|].
+  change (find_owner false (set_claim st p cl) q) with (find_owner false st q).
+  assert (Htail : forall k,
+    (if is_prefix stepup_prefix q then Err (MStepupFile q) else
+     match bad_name q with Some m => Err m | None =>
+     match lookup q (claims (set_claim st p cl)) with
+     | Some _ => Err (MNodeExists (s2l "file:" ++ q))
+     | None => if role_eqb r RVolatile && mem_str q (loose (set_claim st p cl)) then Err (MVolatileHasSinks q)
+               else Ok (set_claim (set_claim st p cl) q (mkClaim r k)) end end) =
+    match (if is_prefix stepup_prefix q then Err (MStepupFile q) else
+     match bad_name q with Some m => Err m | None =>
+     match lookup q (claims st) with
+     | Some _ => Err (MNodeExists (s2l "file:" ++ q))
+     | None => if role_eqb r RVolatile && mem_str q (loose st) then Err (MVolatileHasSinks q)
+               else Ok (set_claim st q (mkClaim r k)) end end) with
+    | Ok _ => Ok (set_claim (set_claim st p cl) q (mkClaim r k)) | Err m => Err m end).
+  { intros k. destruct (is_prefix stepup_prefix q); [reflexivity|]. destruct (bad_name q); [reflexivity|].
+    rewrite (lookup_set_claim_other st p cl q Hne). destruct (lookup q (claims st)); [reflexivity|].
+    cbn [loose set_claim]. rewrite (mem_remove_other p q _ Hne).
+    destruct (role_eqb r RVolatile && mem_str q (loose st)); reflexivity. }
+  destruct c0 as [|l|t]; cbn [bind].
+  - destruct (find_owner false st q) as [[[t tc]|]|m]; cbn [bind].
+    + destruct (role_eqb r RStatic); reflexivity.
+    + apply Htail.
+    + reflexivity.
+  - destruct (find_owner false st q) as [[[t tc]|]|m]; cbn [bind].
+    + destruct (role_eqb r RStatic); reflexivity.
+    + apply Htail.
+    + reflexivity.
+  - apply Htail.
+Qed.
+
+Lemma one_accepted D st :
+  accepted (one_sem D st) = true ->
+  require_step st (d1_cr D) = Ok tt /\
+  exists dcl, d1_dclf D st = Ok dcl /\
+  ((check_decl st (WNode dcl) (d1_p D) (d1_r D) = Ok false /\ one_sem D st = Ok st) \/
+   (check_decl st (WNode dcl) (d1_p D) (d1_r D) = Ok true /\
+    (match d1_gl D with Some lbl => glob_check gm (globs st) lbl [d1_p D] | None => Ok tt end) = Ok tt /\
+    declare_file false dcl (d1_r D) st (d1_p D) = Ok (set_claim st (d1_p D) (mkClaim (d1_r D) dcl)) /\
+    one_sem D st = Ok (set_claim st (d1_p D) (mkClaim (d1_r D) dcl)))).
+Proof.
+  unfold one_sem. destruct (require_step st (d1_cr D)) as [[]|]; cbn [bind accepted]; [|discriminate].
+  destruct (d1_dclf D st) as [dcl|] eqn:Ed; cbn [bind accepted]; [|discriminate].
+  destruct (check_decl st (WNode dcl) (d1_p D) (d1_r D)) as [[|]|] eqn:Ec; cbn [bind accepted]; [| |discriminate].
+  - destruct (match d1_gl D with Some lbl => glob_check gm (globs st) lbl [d1_p D] | None => Ok tt end)
+      as [[]|] eqn:Eg; cbn [bind accepted]; [|discriminate].
+    destruct (declare_file false dcl (d1_r D) st (d1_p D)) as [st2|] eqn:E; cbn [accepted]; [|discriminate].
+    intros _. destruct (declare_file_ok_gen _ _ _ _ _ E) as [-> _].
+    split; [reflexivity|]. exists dcl. split; [reflexivity|]. right. repeat split; auto.
+  - intros _. split; [reflexivity|]. exists dcl. split; [reflexivity|]. left. auto.
+Qed.
+
+Lemma require_nontree st c : require_step st c = Ok tt -> forall t, c <> CTree t.
+Proof. intros H t ->. unfold require_step in H. cbn in H. discriminate H. Qed.
+
+(* Any two single-path declarations (static file / amended output / amended volatile output), any
+   creators, any paths: both orders rejected with the same structured message, or both accepted
+   with equal states (up to the order of the claim table). *)
+Theorem one_one_commute st A B :
+  Inv gm gr st -> wf1 A -> wf1 B ->
+  accepted (one_sem A st) = true -> accepted (one_sem B st) = true ->
+  both_equiv (bind (one_sem A st) (one_sem B)) (bind (one_sem B st) (one_sem A)).
+Proof.
+  intros HI [FA TA] [FB TB] HA HB.
+  destruct (one_accepted _ _ HA) as [QA [da [EA [[CA SA]|[CA [GA [DA SA]]]]]]];
+  destruct (one_accepted _ _ HB) as [QB [db [EB [[CB SB]|[CB [GB [DB SB]]]]]]];
+  rewrite SA, SB; cbn [bind].
+  - rewrite SA, SB. apply state_equiv_refl.
+  - (* A held, B new *)
+    rewrite SB.
+    assert (Hne : d1_p A <> d1_p B).
+    { intros E. apply check_decl_true_none in CB. apply check_decl_false_held in CA.
+      apply (lookup_in_nodup _ _ _ (inv_uniq _ _ _ HI)) in CA. rewrite E in CA. congruence. }
+    unfold one_sem.
+    change (require_step (set_claim st (d1_p B) (mkClaim (d1_r B) db)) (d1_cr A)) with (require_step st (d1_cr A)).
+    rewrite QA, FA, EA. cbn [bind]. rewrite check_decl_set_claim_other by assumption. rewrite CA.
+    apply state_equiv_refl.
+  - (* A new, B held *)
+    rewrite SA.
+    assert (Hne : d1_p B <> d1_p A).
+    { intros E. apply check_decl_true_none in CA. apply check_decl_false_held in CB.
+      apply (lookup_in_nodup _ _ _ (inv_uniq _ _ _ HI)) in CB. rewrite E in CB. congruence. }
+    unfold one_sem.
+    change (require_step (set_claim st (d1_p A) (mkClaim (d1_r A) da)) (d1_cr B)) with (require_step st (d1_cr B)).
+    rewrite QB, FB, EB. cbn [bind]. rewrite check_decl_set_claim_other by assumption. rewrite CB.
+    apply state_equiv_refl.
+  - (* both new *)
+    unfold one_sem.
+    change (require_step (set_claim st (d1_p A) (mkClaim (d1_r A) da)) (d1_cr B)) with (require_step st (d1_cr B)).
+    change (require_step (set_claim st (d1_p B) (mkClaim (d1_r B) db)) (d1_cr A)) with (require_step st (d1_cr A)).
+    rewrite QA, QB, FA, FB, EA, EB. cbn [bind].
+    destruct (str_eqb (d1_p A) (d1_p B)) eqn:Ep.
+    + apply str_eqb_eq in Ep. set (p := d1_p A) in *. rewrite <- Ep in *.
+      unfold check_decl. cbn [claims set_claim lookup]. rewrite str_eqb_refl. cbn [c_role c_by].
+      destruct (role_eqb (d1_r A) (d1_r B) && creator_eqb da db) eqn:Esame.
+      * apply andb_true_iff in Esame as [Ea Eb]. apply role_eqb_eq in Ea. apply creator_eqb_eq in Eb.
+        rewrite <- Ea, <- Eb. rewrite role_eqb_refl, creator_eqb_refl. cbn [andb bind both_equiv].
+        apply state_equiv_refl.
+      * assert (Esame' : role_eqb (d1_r B) (d1_r A) && creator_eqb db da = false).
+        { destruct (role_eqb (d1_r B) (d1_r A) && creator_eqb db da) eqn:E; [|reflexivity].
+          apply andb_true_iff in E as [Ea Eb]. apply role_eqb_eq in Ea. apply creator_eqb_eq in Eb.
+          rewrite Ea, Eb, role_eqb_refl, creator_eqb_refl in Esame. discriminate Esame. }
+        rewrite Esame'.
+        (* neither declarer is a tree *)
+        destruct (declare_file_ok_gen _ _ _ _ _ DA) as [_ [_ OA]].
+        destruct (declare_file_ok_gen _ _ _ _ _ DB) as [_ [_ OB]].
+        pose proof (require_nontree _ _ QA) as NA. pose proof (require_nontree _ _ QB) as NB.
+        assert (HnA : forall t, da <> CTree t).
+        { intros t ->. destruct (TA st t NA EA) as [RA OwnA].
+          destruct db as [| |t'].
+          - rewrite (OB ltac:(intros; discriminate)) in OwnA. discriminate OwnA.
+          - rewrite (OB ltac:(intros; discriminate)) in OwnA. discriminate OwnA.
+          - destruct (TB st t' NB EB) as [RB OwnB]. rewrite OwnB in OwnA. inversion OwnA; subst.
+            rewrite RA, RB in Esame. cbn in Esame. rewrite str_eqb_refl in Esame. discriminate Esame. }
+        assert (HnB : forall t, db <> CTree t).
+        { intros t ->. destruct (TB st t NB EB) as [RB OwnB].
+          rewrite (OA HnA) in OwnB. discriminate OwnB. }
+        assert (exists dA, decl_of_node (d1_r A) da = Ok dA) as [dA HdA].
+        { destruct da; [eexists; reflexivity|eexists; reflexivity|exfalso; eapply HnA; eauto]. }
+        assert (exists dB, decl_of_node (d1_r B) db = Ok dB) as [dB HdB].
+        { destruct db; [eexists; reflexivity|eexists; reflexivity|exfalso; eapply HnB; eauto]. }
+        rewrite HdA, HdB. cbn [bind both_equiv].
+        now apply collision_message_symmetric.
+    + assert (Hne : d1_p A <> d1_p B) by (now apply str_eqb_false).
+      assert (Hne' : d1_p B <> d1_p A) by congruence.
+      rewrite !check_decl_set_claim_other by assumption. rewrite CA, CB. cbn [bind].
+      change (globs (set_claim st (d1_p A) (mkClaim (d1_r A) da))) with (globs st).
+      change (globs (set_claim st (d1_p B) (mkClaim (d1_r B) db))) with (globs st).
+      rewrite GA, GB. cbn [bind].
+      rewrite !declare_file_set_claim_other_gen by assumption.
+      rewrite DA, DB. cbn [both_equiv]. now apply set_claim_swap.
+Qed.
+
+(* Instances at request level. *)
+Lemma bind_ext {A B} (x : res A) (f g : A -> res B) : (forall a, f a = g a) -> bind x f = bind x g.
+Proof. intros H. destruct x; cbn; auto. Qed.
+
+Theorem static_static_commute st c1 p1 c2 p2 :
+  Inv gm gr st ->
+  accepted (step gm false gr st (RqStatic c1 [p1])) = true ->
+  accepted (step gm false gr st (RqStatic c2 [p2])) = true ->
+  both_equiv (run gm false gr st [RqStatic c1 [p1]; RqStatic c2 [p2]])
+             (run gm false gr st [RqStatic c2 [p2]; RqStatic c1 [p1]]).
+Proof.
+  intros HI H1 H2. rewrite !run2.
+  rewrite (bind_ext _ _ (one_sem (D_static c2 p2)) (fun s => D_static_spec c2 p2 s)).
+  rewrite (bind_ext _ _ (one_sem (D_static c1 p1)) (fun s => D_static_spec c1 p1 s)).
+  rewrite !D_static_spec in *.
+  apply one_one_commute; auto using D_static_wf.
+Qed.
+
+Theorem static_product_commute st c1 p1 s r p2 :
+  Inv gm gr st -> product_role r = true ->
+  accepted (step gm false gr st (RqStatic c1 [p1])) = true ->
+  accepted (step gm false gr st (amend1 s r p2)) = true ->
+  both_equiv (run gm false gr st [RqStatic c1 [p1]; amend1 s r p2])
+             (run gm false gr st [amend1 s r p2; RqStatic c1 [p1]]).
+Proof.
+  intros HI Hr H1 H2. rewrite !run2.
+  rewrite (bind_ext _ _ (one_sem (D_amend s r p2)) (fun st' => D_amend_spec s r p2 st' Hr)).
+  rewrite (bind_ext _ _ (one_sem (D_static c1 p1)) (fun s => D_static_spec c1 p1 s)).
+  rewrite D_static_spec in *. rewrite (D_amend_spec s r p2 st Hr) in *.
+  apply one_one_commute; auto using D_static_wf, D_amend_wf.
+Qed.
+
+End Commute6.
